@@ -1431,11 +1431,15 @@ func cmdC03Deep(a cmdArgs) {
 	}
 	// Go grows a goroutine stack by doubling and refuses a size above the limit: the default limit of 1 GB
 	// allows 512 MB, the quick tier's 16 MB allows 16 MB (factor 32)
-	maxStack, label, limit, factor := 16<<20, "16 MB (debug.SetMaxStack in the child; Go's default of 1 GB allows 512 MB: depths scale by 32)", 6*time.Second, 32
+	// (since the nesting guard of /repo (maxDepth) the quick tier runs at Go's default limit too: what matters is
+	// that the guard fires long before the default stack is exhausted, not how deep a 16 MB stack reaches)
+	maxStack, label, limit, factor := 0, "Go default (1 GB limit, 512 MB usable)", 10*time.Second, 0
 	steps := 4
+	maxN := 4_096_000
 	if a.thorough {
 		maxStack, label, limit, factor = 0, "Go default (1 GB limit, 512 MB usable)", 25*time.Second, 0
-		fams = []fam{fams[0], fams[1], fams[6]}
+		maxN = 64_000_000
+		fams = []fam{fams[0], fams[1], fams[4], fams[6]}
 	} else {
 		fams = []fam{fams[0], fams[1], fams[4], fams[6]}
 	}
@@ -1449,7 +1453,7 @@ func cmdC03Deep(a cmdArgs) {
 		}
 		fatal := ""
 		// grow until a child dies
-		for hi == 0 && n <= 64_000_000 {
+		for hi == 0 && n <= maxN {
 			r := c03DeepTry(tmp, c03DeepSpec{Family: f.name, N: n, Stage: f.stage, MaxStack: maxStack}, limit)
 			res.ChildRuns++
 			st.add("deep:"+f.name, fmt.Sprintf("%s n=%d %s", f.name, n, r))
